@@ -13,7 +13,10 @@ use tantivy::{Index, IndexWriter, TantivyDocument};
 
 use crate::common::*;
 
-pub const TEXTS: [&str; 12] = ["a", "b", "a b", "b a", "a a b", "", "c", "a c", "b c a", "c c", "b b", "a b a"];
+/// the 13th text holds a word longer than 40 bytes between "a" and "b": the default analyzer drops it at indexing
+/// and at query time but keeps its position, so a phrase across it must keep the gap
+pub const LONG_WORD: &str = "xxxxxxxxxxxxxxxxxxxxxxxxxxxxxxxxxxxxxxxxx";
+pub const TEXTS: [&str; 13] = ["a", "b", "a b", "b a", "a a b", "", "c", "a c", "b c a", "c c", "b b", "a b a", "a xxxxxxxxxxxxxxxxxxxxxxxxxxxxxxxxxxxxxxxxx b"];
 const BASE_DATE: i64 = 1_000_000_000;
 
 #[derive(Clone, Debug)]
@@ -31,10 +34,10 @@ pub struct CDoc {
 }
 
 pub fn corpus() -> Vec<CDoc> {
-    (0..12usize)
+    (0..TEXTS.len())
         .map(|i| CDoc {
             a: TEXTS[i].split_whitespace().map(|x| x.to_string()).collect(),
-            t: TEXTS[(i + 5) % 12].split_whitespace().map(|x| x.to_string()).collect(),
+            t: TEXTS[(i + 5) % TEXTS.len()].split_whitespace().map(|x| x.to_string()).collect(),
             n: if i % 4 == 3 { None } else { Some((i % 3) as u64) },
             i: i as i64 - 2,
             f: i as f64 * 0.5,
@@ -153,7 +156,8 @@ fn phrase_tv(tokens: &[String], words: &[String], slop: u32, prefix: bool) -> Tv
     let n = words.len();
     let exact = (0..tokens.len()).any(|s| {
         s + n <= tokens.len()
-            && (0..n).all(|i| if prefix && i == n - 1 { tokens[s + i].starts_with(words[i].as_str()) } else { tokens[s + i] == words[i] })
+            // a word the analyzer drops (LONG_WORD) leaves a position gap: any token may stand there
+            && (0..n).all(|i| if prefix && i == n - 1 { tokens[s + i].starts_with(words[i].as_str()) } else { tokens[s + i] == words[i] || words[i] == LONG_WORD })
     });
     if exact {
         return Tv::Yes;
@@ -388,6 +392,8 @@ pub fn leaves() -> Vec<Aq> {
         Aq::Phrase(None, vec!["a".into(), "b".into()], 0, false),
         Aq::Phrase(None, vec!["b".into(), "a".into()], 1, false),
         Aq::Phrase(None, vec!["a".into(), "b".into()], 0, true),
+        // a phrase across a word the analyzer drops (longer than 40 bytes): the position gap must be kept
+        Aq::Phrase(None, vec!["a".into(), LONG_WORD.into(), "b".into()], 0, false),
         Aq::Phrase(Some("t".into()), vec!["b".into(), "c".into()], 0, false),
         Aq::RangeN(Some((true, 1)), Some((true, 2)), 0),
         Aq::RangeN(Some((false, 0)), None, 0),
@@ -449,6 +455,13 @@ pub fn compounds(depth2: bool) -> Vec<Aq> {
                 v.push(Aq::Seq(vec![(1, x.clone()), (1, y.clone()), (0, z.clone())]));
                 v.push(Aq::Seq(vec![(1, x.clone()), (2, y.clone()), (0, z.clone())]));
                 v.push(Aq::Seq(vec![(0, Aq::Group("t".into(), vec![Aq::Boost(Box::new(w("a")), 2), w("b")])), (0, z.clone())]));
+                // a parenthesised group mixing occur markers, as an optional / required / excluded member of a sequence
+                for inner in [vec![(0u8, x.clone()), (2u8, y.clone())], vec![(1, x.clone()), (0, y.clone())], vec![(1, x.clone()), (2, y.clone())]] {
+                    v.push(Aq::Seq(vec![(0, Aq::Seq(inner.clone())), (0, z.clone())]));
+                    v.push(Aq::Seq(vec![(0, z.clone()), (0, Aq::Seq(inner.clone()))]));
+                    v.push(Aq::Seq(vec![(1, Aq::Seq(inner.clone())), (0, z.clone())]));
+                    v.push(Aq::Seq(vec![(2, Aq::Seq(inner.clone())), (0, z.clone())]));
+                }
                 if depth2 {
                     v.push(Aq::And(vec![Aq::Or(vec![x.clone(), y.clone()]), Aq::Or(vec![y.clone(), z.clone()])]));
                     v.push(Aq::Seq(vec![(1, Aq::Or(vec![x.clone(), y.clone()])), (2, Aq::And(vec![y.clone(), z.clone()]))]));
